@@ -558,6 +558,120 @@ theorem reach_of_runSched (ts : List K.Th) : ∀ (s s' : St), Reach s → runSch
     | none => simp [hs] at h
     | some s1 => simp only [hs] at h; exact ih s1 s' (Reach.step t hr hs) h
 
+/-! ### the part of `K.Inv` that does not depend on what a tick does
+the engine-ownership flags agree with the engine goroutine, and a scheduled tick event is one the
+engine goroutine will handle (`K.willLook`) — the statement the engine-exit race violated -/
+
+structure PInv (k : K.St) : Prop where
+  run_iff : k.running = true ↔ k.e ≠ .none
+  pend_run : k.pend = true → k.running = true
+  look : k.evt = true → K.willLook k
+
+theorem stepApp_proto (k k1 : K.St) (j : Nat) (a : K.App) (h : K.stepApp k j a = some k1) :
+    k1.running = k.running ∧ k1.pend = k.pend ∧ k1.e = k.e ∧ k1.evt = k.evt ∧ (k.r = .chkFlag → k1.r = .chkFlag) := by
+  obtain ⟨pc, script, q, sub, tok, ret⟩ := a
+  cases pc
+  case idle =>
+    cases script with
+    | nil => simp [K.stepApp] at h
+    | cons op rest =>
+      cases op <;>
+      · simp only [K.stepApp] at h
+        injection h with h; subst h
+        exact ⟨rfl, rfl, rfl, rfl, fun hc => hc⟩
+  all_goals
+    simp only [K.stepApp] at h
+    repeat (split at h)
+    all_goals first
+      | (injection h with h; subst h; exact ⟨rfl, rfl, rfl, rfl, fun hc => hc⟩)
+      | (injection h with h; subst h; rename_i hr; exact ⟨rfl, rfl, rfl, rfl, fun hc => by rw [hr] at hc; cases hc⟩)
+      | cases h
+
+theorem pinv_app (k k1 : K.St) (j : Nat) (a : K.App) (h : K.stepApp k j a = some k1) (hi : PInv k) : PInv k1 := by
+  obtain ⟨h1, h2, h3, h4, h5⟩ := stepApp_proto k k1 j a h
+  refine ⟨by rw [h1, h3]; exact hi.run_iff, by rw [h1, h2]; exact hi.pend_run, fun hev => ?_⟩
+  have := hi.look (h4 ▸ hev)
+  unfold K.willLook at this ⊢
+  rw [h3, h2]
+  rcases this with hr | hr
+  · exact Or.inl (h5 hr)
+  · exact Or.inr hr
+
+theorem pinv_async (k k1 : K.St) (h : K.step k .async = some k1) (hi : PInv k) : PInv k1 := by
+  cases hr : k.r <;> simp only [K.step, hr] at h
+  · cases h
+  · split at h
+    · cases h
+    · injection h with h; subst h
+      exact ⟨hi.run_iff, hi.pend_run, fun _ => Or.inl rfl⟩
+  · split at h
+    · rename_i hrun
+      injection h with h; subst h
+      refine ⟨hi.run_iff, fun _ => hrun, fun _ => ?_⟩
+      have hne := hi.run_iff.mp hrun
+      unfold K.willLook
+      simp only
+      cases he : k.e with
+      | none => exact absurd he hne
+      | start => simp
+      | loop => simp
+      | deq i => simp [K.isTickPc]
+      | notify i => simp [K.isTickPc]
+      | afterRun => simp
+      | clear => simp
+    · injection h with h; subst h
+      exact ⟨by simp, fun _ => rfl, fun _ => by unfold K.willLook; simp⟩
+
+theorem pinv_eng_other (k k1 : K.St) (hn : ¬ (k.e = .loop ∧ k.evt = true)) (ht : K.isTickPc k.e = false)
+    (h : K.step k .eng = some k1) (hi : PInv k) : PInv k1 := by
+  have hrun := hi.run_iff
+  have hpend := hi.pend_run
+  have hlook := hi.look
+  unfold K.willLook at hlook
+  cases he : k.e <;> simp only [K.step, he] at h
+  case none => cases h
+  case deq i => simp [he, K.isTickPc] at ht
+  case notify i => simp [he, K.isTickPc] at ht
+  case start =>
+    injection h with h; subst h
+    exact ⟨by simpa [he] using hrun, hpend, fun _ => by unfold K.willLook; simp⟩
+  case loop =>
+    have hev : k.evt = false := by
+      cases hv : k.evt with
+      | false => rfl
+      | true => exact absurd ⟨he, hv⟩ hn
+    simp only [hev] at h
+    injection h with h; subst h
+    exact ⟨by simpa [he] using hrun, hpend, fun hc => by simp at hc⟩
+  case afterRun =>
+    injection h with h; subst h
+    refine ⟨by simpa [he] using hrun, hpend, fun hc => ?_⟩
+    have := hlook hc
+    unfold K.willLook
+    simp [he, K.isTickPc] at this ⊢
+    exact this
+  case clear =>
+    split at h
+    · injection h with h; subst h
+      exact ⟨by simpa [he] using hrun, by simp, fun _ => by unfold K.willLook; simp⟩
+    · rename_i hp
+      injection h with h; subst h
+      refine ⟨by simp, fun hc => absurd hc hp, fun hc => ?_⟩
+      have := hlook hc
+      unfold K.willLook
+      simp [he, K.isTickPc, hp] at this ⊢
+      exact this
+
+theorem pinv_at_loop (k : K.St) (he : k.e = .loop) (hi : PInv k) (b : Bool) (qs : List K.Qu) (apps : List K.App) :
+    PInv { k with evt := b, qs := qs, apps := apps } :=
+  ⟨hi.run_iff, hi.pend_run, fun _ => by unfold K.willLook; simp [he]⟩
+
+theorem pinv_evt_same (k : K.St) (hi : PInv k) (b : Bool) (hb : b = k.evt) : PInv { k with evt := b } := by
+  subst hb; exact hi
+
+theorem pinv_init (scripts : List (List K.Op)) (nq : Nat) : PInv (K.init scripts nq) :=
+  ⟨by simp [K.init], by simp [K.init], by simp [K.init]⟩
+
 /-! ## C12.E.G — any commands, GPU port -/
 namespace G
 
@@ -729,8 +843,10 @@ theorem ginv_step (kind : Nat → W.Drv.Cmd) (inCap outCap : Nat) {s s' : St} {t
   | retrieve =>
     simp only [step] at h
     split at h
+    · split at h
+      · cases h
+      · injection h with h; subst h; exact ⟨hi.aok, hi.link⟩
     · cases h
-    · injection h with h; subst h; exact ⟨hi.aok, hi.link⟩
 
 theorem ginv_reach {kind : Nat → W.Drv.Cmd} {inCap outCap : Nat} {s : St} (h : Reach kind inCap outCap s) : GInv s := by
   induction h with
@@ -804,10 +920,12 @@ theorem step_w (kind : Nat → W.Drv.Cmd) (inCap outCap : Nat) {s s' : St} {t : 
   | retrieve =>
     simp only [step] at h
     split at h
+    · split at h
+      · cases h
+      · rename_i x rest hout
+        injection h with h; subst h
+        exact Or.inr ⟨.retrieve, by simp [sysOf, W.step, hout]⟩
     · cases h
-    · rename_i x rest hout
-      injection h with h; subst h
-      exact Or.inr ⟨.retrieve, by simp [sysOf, W.step, hout]⟩
 
 theorem winv_reach {kind : Nat → W.Drv.Cmd} {inCap outCap : Nat} {s : St} (h : Reach kind inCap outCap s) :
     W.WInv (W.Drv.work outCap) (sysOf s) := by
@@ -1016,8 +1134,10 @@ theorem sync_step (kind : Nat → W.Drv.Cmd) (inCap outCap : Nat) {s s' : St} {t
   | retrieve =>
     simp only [step] at h
     split at h
+    · split at h
+      · cases h
+      · injection h with h; subst h; exact hi
     · cases h
-    · injection h with h; subst h; exact hi
 
 theorem sync_reach {kind : Nat → W.Drv.Cmd} {inCap outCap : Nat} {s : St} (h : Reach kind inCap outCap s) : Sync s := by
   induction h with
@@ -1081,6 +1201,67 @@ theorem sync_empty (s : St) (hs : Sync s) (q : Nat) (hc : K.cmdsOf s.k q = []) (
     have : x.cmds = [] := by simpa [K.cmdsOf, K.cmdsAt, hx] using hc
     rw [this] at h1
     exact List.eq_nil_of_length_eq_zero h1.symm
+
+/-! ### a scheduled tick event is handled -/
+
+theorem pinv_step (kind : Nat → W.Drv.Cmd) (inCap outCap : Nat) {s s' : St} {t : Th} (hi : PInv s.k)
+    (h : step kind inCap outCap s t = some s') : PInv s'.k := by
+  cases t with
+  | app j =>
+    simp only [step] at h
+    cases ha : s.k.apps[j]? with
+    | none => simp [ha] at h
+    | some a =>
+      simp only [ha] at h
+      cases hk : K.step s.k (.app j) with
+      | none => simp [hk] at h
+      | some k1 =>
+        simp [hk] at h
+        have hk' : K.stepApp s.k j a = some k1 := by simpa [K.step, ha] using hk
+        have := pinv_app s.k k1 j a hk' hi
+        by_cases hen : isEnq a = true
+        · simp only [hen, if_true] at h; subst h; exact this
+        · simp only [hen] at h; subst h; exact this
+  | async =>
+    simp only [step] at h
+    cases hk : K.step s.k .async with
+    | none => simp [hk] at h
+    | some k1 => simp [hk] at h; subst h; exact pinv_async s.k k1 hk hi
+  | eng =>
+    simp only [step] at h
+    split at h
+    · rename_i hc
+      injection h with h; subst h
+      exact pinv_at_loop s.k hc.1 hi _ _ _
+    · split at h
+      · cases h
+      · cases hk : K.step s.k .eng with
+        | none => simp [hk] at h
+        | some k1 =>
+          simp [hk] at h; subst h
+          rename_i hn ht
+          exact pinv_eng_other s.k k1 hn (by simpa using ht) hk hi
+  | deliver m =>
+    simp only [step] at h
+    split at h
+    · rename_i hc
+      injection h with h; subst h
+      exact pinv_at_loop s.k hc.1 hi _ s.k.qs s.k.apps
+    · cases h
+  | retrieve =>
+    simp only [step] at h
+    split at h
+    · rename_i hc
+      split at h
+      · cases h
+      · injection h with h; subst h
+        exact pinv_at_loop s.k hc hi _ s.k.qs s.k.apps
+    · cases h
+
+theorem pinv_reach {kind : Nat → W.Drv.Cmd} {inCap outCap : Nat} {s : St} (h : Reach kind inCap outCap s) : PInv s.k := by
+  induction h with
+  | init scripts nq h => exact pinv_init scripts nq
+  | step t _ hs ih => exact pinv_step _ _ _ ih hs
 
 end G
 
